@@ -115,6 +115,7 @@ class World:
                 super().__init__(f't{idx}')
                 self.idx = idx
                 self.deps_idx = deps_idx
+                self.dependents = []       # tasks that depend on this one (gifts go to them)
 
             def do(self, env, config):
                 ctl = world.harness.ctl
@@ -125,14 +126,27 @@ class World:
                 obs = {}
                 for d in self.deps_idx:
                     ent = env.dictionary.get(f't{d}')
+                    own = env.dictionary.get(self.name) or {}
                     obs[d] = None if ent is None else (
                         _status_code(ent.get('status')), ent.get('payload'),
                         ent.get('start_clock') is not None and ent.get('end_clock') is not None,
-                        world.exec_count[d])
+                        world.exec_count[d],
+                        # what dependency d filed under THIS task's name, and what it should be
+                        own.get(f'gift_{d}') if isinstance(own, dict) else 'junk',
+                        world.gifts.get((d, self.idx)))
                 ctl.note('obs', obs)
                 kind, _, var = world.outcomes[self.idx].partition(':')
                 var = int(var or 0)
                 upd = {self.name: {'payload': k}}
+                if kind == 'done' and var % 4 == 2:
+                    # part of the update goes into the entries of the tasks that depend on this one
+                    for dep_t in self.dependents:
+                        ent = env.dictionary.get(f't{dep_t}')
+                        if isinstance(ent, dict) and 'status' in ent:
+                            # (only into entries the master has already created: an entry without
+                            # a status is outside what the model describes)
+                            upd[f't{dep_t}'] = {f'gift_{self.idx}': k}
+                            world.gifts[(self.idx, dep_t)] = k
                 if kind == 'done':
                     if var % 4 == 1:
                         # a task that returns its whole (previous) entry, clocks included
@@ -145,6 +159,10 @@ class World:
                 if kind == 'failnone':
                     return None, TaskStatus.FAILED
                 if kind == 'raise':
+                    if var % 6 == 4:
+                        raise BadStr()
+                    if var % 6 == 5:
+                        sys.exit(3)
                     raise [RuntimeError, KeyError, ValueError, OSError][var % 4]('probe task fails')
                 if kind == 'none':
                     return None
@@ -154,11 +172,21 @@ class World:
                 if kind == 'badstatus':
                     return upd, ['bogus', 0, None, 99, 'DONE', -1, (3,)][var % 7]
                 if kind == 'badupdate':
-                    return [[1, 2, 3], [], (), '', 0, False, set(), 'abc', 5][var % 9], TaskStatus.DONE
+                    return [[1, 2, 3], [], (), '', 0, False, set(), 'abc', 5, {self.name: 5},
+                            {self.name: 'text'}, {self.name: None}][var % 12], TaskStatus.DONE
                 if kind == 'waitstatus':
                     return upd, [TaskStatus.WAITING, TaskStatus.PENDING, TaskStatus.SKIPPED, True][var % 4]
                 raise AssertionError(kind)
         self.Probe = Probe
+
+
+class BadStr(Exception):
+    '''an exception that cannot be printed'''
+
+    def __str__(self):
+        raise TypeError('cannot print this exception')
+
+    __repr__ = __str__
 
 
 def _status_code(status):
@@ -281,6 +309,10 @@ def run_history(world, case):
     Env = world.env_mod.Env
     TaskStatus = world.TaskStatus
     tasks = [world.Probe(t, full[t]) for t in range(n)]
+    world.gifts = {}
+    for t in range(n):
+        for d in full[t]:
+            tasks[d].dependents.append(t)
     stages = case.get('stages') or []
     if not stages:
         hard_g = world.DepGraph.from_dependency_dictionary(
@@ -326,6 +358,7 @@ def run_history(world, case):
         cyclic = base_cyclic
         world.outcomes = run['outcomes']
         world.run_execs = [0] * n
+        world.gifts = {}        # what a dependency executed in THIS run files under its dependents' names
         rng = random.Random(run['seed'])
         if run['strategy'] == 'script':
             choose = make_script_choose({int(a): b for a, b in run.get('script', {}).items()})
